@@ -211,7 +211,12 @@ def validator_cases(draw):
 def collection_oracle(ctx):
     def oracle(case):
         subkind, colltype, items, macro = case
-        if subkind == "byte":
+        if subkind == "ntuple":
+            import collections as _c
+            T = _c.namedtuple("T", "a b")
+            sub, domain = C.NamedTuple("T", "a b", C.Array(2, C.Byte)), [T(a, b) for a in (0, 1, 2) for b in (0, 1, 2)]
+            items = [T(*x) for x in items]
+        elif subkind == "byte":
             sub, domain = C.Byte, list(range(0, 256))
         elif subkind == "bytes1":
             sub, domain = C.Bytes(1), [bytes([b]) for b in range(256)]
@@ -242,8 +247,10 @@ def collection_oracle(ctx):
 
 @st.composite
 def collection_cases(draw):
-    subkind = draw(st.sampled_from(["byte", "byte", "bytes1", "bytes2", "str2"]))
+    subkind = draw(st.sampled_from(["byte", "byte", "bytes1", "bytes2", "str2", "ntuple"]))
     macro = draw(st.sampled_from(["oneof", "noneof"]))
+    if subkind == "ntuple":
+        return [subkind, draw(st.sampled_from(["list", "tuple", "set"])), draw(st.lists(st.tuples(st.integers(0, 2), st.integers(0, 2)).map(list), max_size=4, unique_by=tuple)), macro]
     if subkind == "byte":
         colltype = draw(st.sampled_from(["list", "tuple", "set", "frozenset", "dictkeys", "range", "same"]))
         if colltype == "range":
@@ -295,6 +302,39 @@ def campaign_constctx(ctx):
         lambda t: [t[0], t[1], [list(x) for x in t[2]]])
     ctx.search(strat, constctx_oracle(ctx), ctx.budget(400, 6000))
 campaign_constctx.shards = (1, 4)
+
+
+# an alternative that a constraint refuses part-way leaves nothing behind: Select/Optional emit exactly what the alternative
+# that finally builds emits
+def rejected_oracle(ctx):
+    def oracle(case):
+        k, guard, ok, wrapper, tail = case
+        heads = [("h%d" % i) / C.Byte for i in range(k)]
+        g = {"oneof": lambda: C.OneOf(C.Byte, [1, 2]), "noneof": lambda: C.NoneOf(C.Byte, [7]), "const": lambda: C.Const(1, C.Byte),
+             "check": lambda: C.Struct("v" / C.Byte, C.Check(this.v < 3))}[guard]
+        first = C.Struct(*heads, "g" / g())
+        gval = (1 if ok else 7)
+        gobj = dict(v=gval) if guard == "check" else gval
+        obj = dict({("h%d" % i): 0xa0 + i for i in range(k)}, g=gobj, s=0x5b)
+        second = C.Struct("s" / C.Byte)
+        con = C.Optional(first) if wrapper == "optional" else C.Select(first, second)
+        outer = C.Struct("pre" / C.Byte, "x" / con) if tail == "nested" else con
+        want_inner = (bytes(0xa0 + i for i in range(k)) + bytes([gval])) if ok else (b"" if wrapper == "optional" else b"\x5b")
+        want = (b"\x09" + want_inner) if tail == "nested" else want_inner
+        o = call(outer.build, dict(pre=9, x=obj) if tail == "nested" else obj)
+        ctx.record(case, not ok, ["rejected/%s/%s" % (wrapper, "refused" if not ok else "accepted")])
+        if not o.ok or o.value != want:
+            return Failure("C13/rejected-alternative-leaves-bytes", "%s over Struct(%d bytes, %s) built from a value the constraint %s: -> %r, expected %s" % (
+                wrapper, k, guard, "admits" if ok else "refuses", o, want.hex()))
+        return None
+    return oracle
+
+
+def campaign_rejected(ctx):
+    strat = st.tuples(st.integers(0, 4), st.sampled_from(["oneof", "noneof", "const", "check"]), st.booleans(), st.sampled_from(["optional", "select"]),
+                      st.sampled_from(["top", "nested"])).map(list)
+    ctx.search(strat, rejected_oracle(ctx), ctx.budget(300, 3000))
+campaign_rejected.shards = (1, 2)
 
 
 def campaign_collections(ctx):
@@ -703,7 +743,7 @@ def campaign_error_random(ctx):
 campaign_error_random.shards = (2, 8)
 
 
-CAMPAIGNS = {"const": campaign_const, "validators": campaign_validators, "collections": campaign_collections, "constctx": campaign_constctx, "enum": campaign_enum, "flags": campaign_flags,
+CAMPAIGNS = {"const": campaign_const, "validators": campaign_validators, "collections": campaign_collections, "constctx": campaign_constctx, "rejected": campaign_rejected, "enum": campaign_enum, "flags": campaign_flags,
              "mapping": campaign_mapping, "error_enum": campaign_error_enum, "error_random": campaign_error_random}
 
 
@@ -717,4 +757,6 @@ def replay(campaign, case):
         return collection_oracle(c)(case)
     if campaign == "constctx":
         return constctx_oracle(c)(case)
+    if campaign == "rejected":
+        return rejected_oracle(c)(case)
     return {"const": const_oracle, "validators": validator_oracle, "enum": enum_oracle, "flags": flags_oracle, "mapping": mapping_oracle}[campaign](c)(case)
